@@ -98,6 +98,16 @@ type checkerContext struct {
 	currentReceiver *receiverInfo
 }
 
+// inConstructor reports whether the walk is inside a function listed in @constructor of the type.
+// Constructors are functions of the package that declares the type, so a function
+// that merely has the same name in another package does not count.
+func (ctx *checkerContext) inConstructor(pkgPath string, typeName string) bool {
+	if ctx.pass.Pkg == nil || ctx.pass.Pkg.Path() != pkgPath {
+		return false
+	}
+	return ctx.constructors.Match(pkgPath, *ctx.currentFunction, typeName)
+}
+
 // receiverInfo contains information about a method's receiver
 // @immutable
 type receiverInfo struct {
@@ -201,7 +211,7 @@ func checkFieldAssignment(
 		return nil
 	}
 
-	if ctx.constructors.Match(pkgPath, *ctx.currentFunction, typeName) {
+	if ctx.inConstructor(pkgPath, typeName) {
 		return nil
 	}
 
@@ -255,7 +265,7 @@ func checkIndexAssignment(
 		return nil
 	}
 
-	if ctx.constructors.Match(pkgPath, *ctx.currentFunction, typeName) {
+	if ctx.inConstructor(pkgPath, typeName) {
 		return nil
 	}
 
@@ -331,7 +341,7 @@ func checkFieldIncDec(
 		return nil
 	}
 
-	if ctx.constructors.Match(pkgPath, *ctx.currentFunction, typeName) {
+	if ctx.inConstructor(pkgPath, typeName) {
 		return nil
 	}
 
@@ -381,7 +391,7 @@ func checkReceiverIncDec(
 	}
 
 	// Allow in constructors
-	if ctx.constructors.Match(ctx.currentReceiver.pkgPath, *ctx.currentFunction, ctx.currentReceiver.typeName) {
+	if ctx.inConstructor(ctx.currentReceiver.pkgPath, ctx.currentReceiver.typeName) {
 		return nil
 	}
 
@@ -452,7 +462,7 @@ func checkCompoundLHS(
 		return nil
 	}
 
-	if ctx.constructors.Match(pkgPath, *ctx.currentFunction, typeName) {
+	if ctx.inConstructor(pkgPath, typeName) {
 		return nil
 	}
 
@@ -500,7 +510,7 @@ func checkReceiverReassignment(
 	}
 
 	// Allow reassignment in constructors
-	if ctx.constructors.Match(ctx.currentReceiver.pkgPath, *ctx.currentFunction, ctx.currentReceiver.typeName) {
+	if ctx.inConstructor(ctx.currentReceiver.pkgPath, ctx.currentReceiver.typeName) {
 		return nil
 	}
 
